@@ -161,6 +161,44 @@ A_Reset ==
             /\ cfgs'[n] = PutAt(cfgs[n], ev'.p, after)
 C12_Reset == [][A_Reset]_vars
 
+(* C15: every rejection of a value for a declared field is the library's validation error
+   and names a declared path below the assignment's target *)
+RECURSIVE MentionsUnknown(_, _)
+\* the value is (or contains) a map that uses a key the schema does not declare: unknown keys
+\* are outside C15's statement
+MentionsUnknown(Sx, v) ==
+    /\ IsSchema(Sx) /\ v.t = "dict"
+    /\ \E i \in DOMAIN v.kv :
+          LET kk == v.kv[i][1] IN
+          \/ kk.t # "str"
+          \/ ~\E k \in KeyNames : KeyChars[k] = kk.s /\ HasField(Sx, k)
+          \/ LET k == CHOOSE k \in KeyNames : KeyChars[k] = kk.s /\ HasField(Sx, k)
+                 f == FieldOf(Sx, k) IN
+             \/ MentionsUnknown(f, v.kv[i][2])
+             \/ f.kind = "list" /\ IsSchema(f.item) /\ v.kv[i][2].t \in {"list", "tuple"}
+                /\ \E j \in DOMAIN v.kv[i][2].l : MentionsUnknown(f.item, v.kv[i][2].l[j])
+RECURSIVE PathDeclared(_, _)
+\* every segment of an error path is a declared key, an item index of a list of
+\* configurations, or an entry key of a typed dict
+PathDeclared(f, path) ==
+    IF path = <<>> THEN TRUE
+    ELSE LET h == Head(path) IN
+         IF IsSchema(f) THEN h \in STRING /\ HasField(f, h) /\ PathDeclared(FieldOf(f, h), Tail(path))
+         ELSE IF f.kind = "list" /\ IsSchema(f.item) THEN Len(h) = 2 /\ h[1] = "#" /\ PathDeclared(f.item, Tail(path))
+         ELSE IF f.kind = "dict" THEN Len(h) = 2 /\ h[1] = "@" /\ Tail(path) = <<>>
+         ELSE FALSE
+IsPrefixOf(a, b) == Len(a) <= Len(b) /\ SubSeq(b, 1, Len(a)) = a
+C15_Error ==
+    (ev.op \in {"SetAttr", "SetItem"} /\ ev.out \notin {"ok", "Unmodelled"}
+        /\ HasField(SchemaAt(S, ev.p), ev.k) /\ FieldOf(SchemaAt(S, ev.p), ev.k).kind # "virtual") =>
+        \/ MentionsUnknown(FieldOf(SchemaAt(S, ev.p), ev.k), ev.v)
+        \/ FieldOf(SchemaAt(S, ev.p), ev.k).kind = "list" /\ IsSchema(FieldOf(SchemaAt(S, ev.p), ev.k).item)
+           /\ ev.v.t \in {"list", "tuple"}
+           /\ \E j \in DOMAIN ev.v.l : MentionsUnknown(FieldOf(SchemaAt(S, ev.p), ev.k).item, ev.v.l[j])
+        \/ /\ ev.out = "ValidationError"
+           /\ IsPrefixOf(Append(ev.p, ev.k), ev.errpath)
+           /\ PathDeclared(S, ev.errpath)
+
 (* C13: an operation on one configuration never changes the other *)
 A_Isolated == \A m \in Names : ("n" \in DOMAIN ev' /\ ev'.n # m) => cfgs'[m] = cfgs[m]
 C13_Isolated == [][A_Isolated]_vars
